@@ -8,6 +8,7 @@ ap = argparse.ArgumentParser()
 ap.add_argument("--dir", default="/tmp/benign/out")
 ap.add_argument("--jobs", type=int, default=14)
 ap.add_argument("--only", default="")
+ap.add_argument("--checks", default="", help="restrict to these checks (comma separated)")
 a = ap.parse_args()
 ALL = [c["property_id"] for c in json.load(open(os.path.join(VERIF, "MANIFEST.json")))["checks"]]
 
@@ -23,7 +24,7 @@ def work(patch):
         sys.path.insert(0, os.path.join(VERIF, "tools"))
         from relevance import relevant
         viol, errs = [], []
-        for c in relevant(patch, ALL):
+        for c in [x for x in relevant(patch, ALL) if not a.checks or x in a.checks.split(",")]:
             o = subprocess.run([os.path.join(VERIF, "check"), c, "--no-evidence", "--root", d], capture_output=True, text=True, cwd=VERIF)
             if o.returncode == 1:
                 msg = [l for l in o.stdout.splitlines() if l.startswith("  demeter/")][:1]
